@@ -222,6 +222,8 @@ class SerdeInterp(PlaceInterp):
                 return recv
             if name in ('to_string', 'to_owned', 'into_owned', 'as_str') and isinstance(recv, (str, int, float)) and not isinstance(recv, bool):
                 return recv if isinstance(recv, str) else repr(recv)
+            if name == 'to_string' and isinstance(recv, tuple) and len(recv) == 3 and recv[0] == 'struct' and isinstance(recv[2], dict) and 'text' in recv[2]:
+                return recv[2]['text']          # a modelled date-time prints as the text it was read from (C12 decides Display / FromStr)
             return super()._mcall(node, env)
         return super()._mcall(e, env)
 
